@@ -2,6 +2,8 @@
 
 package zzverif
 
+import "sync"
+
 // Go-level models: bodies that the engine executes symbolically INSTEAD of the
 // named callee (assembly, reflection, or library code outside reach). Natively
 // they are dead code.
@@ -158,3 +160,67 @@ func ModelStringsliteHasPrefix(s, p string) bool { return ModelHasPrefix(s, p) }
 
 //verif:model internal/stringslite.HasSuffix
 func ModelStringsliteHasSuffix(s, p string) bool { return ModelHasSuffix(s, p) }
+
+// ---- sync.Map as a plain map per instance (the real one is lock-free hash-trie code over
+// unsafe pointers; its documented contract is that of a map with atomic operations) ----
+
+var syncMaps = map[*sync.Map]map[any]any{}
+
+func syncMapOf(m *sync.Map) map[any]any {
+	mm := syncMaps[m]
+	if mm == nil {
+		mm = map[any]any{}
+		syncMaps[m] = mm
+	}
+	return mm
+}
+
+//verif:model (*sync.Map).Load
+func ModelSyncMapLoad(m *sync.Map, key any) (any, bool) {
+	v, ok := syncMapOf(m)[key]
+	return v, ok
+}
+
+//verif:model (*sync.Map).Store
+func ModelSyncMapStore(m *sync.Map, key, value any) { syncMapOf(m)[key] = value }
+
+//verif:model (*sync.Map).LoadOrStore
+func ModelSyncMapLoadOrStore(m *sync.Map, key, value any) (any, bool) {
+	mm := syncMapOf(m)
+	if v, ok := mm[key]; ok {
+		return v, true
+	}
+	mm[key] = value
+	return value, false
+}
+
+//verif:model (*sync.Map).LoadAndDelete
+func ModelSyncMapLoadAndDelete(m *sync.Map, key any) (any, bool) {
+	mm := syncMapOf(m)
+	v, ok := mm[key]
+	delete(mm, key)
+	return v, ok
+}
+
+//verif:model (*sync.Map).Delete
+func ModelSyncMapDelete(m *sync.Map, key any) { delete(syncMapOf(m), key) }
+
+//verif:model (*sync.Map).Swap
+func ModelSyncMapSwap(m *sync.Map, key, value any) (any, bool) {
+	mm := syncMapOf(m)
+	v, ok := mm[key]
+	mm[key] = value
+	return v, ok
+}
+
+//verif:model (*sync.Map).Range
+func ModelSyncMapRange(m *sync.Map, f func(key, value any) bool) {
+	for k, v := range syncMapOf(m) {
+		if !f(k, v) {
+			return
+		}
+	}
+}
+
+//verif:model (*sync.Map).Clear
+func ModelSyncMapClear(m *sync.Map) { clear(syncMapOf(m)) }
